@@ -1,6 +1,7 @@
 // Abstract request, the three wire encoders and the catalogue of base requests (C01/C02).
 #ifndef VERIF_INPUT_REQ_H
 #define VERIF_INPUT_REQ_H
+#include "string_map.h"
 #include "input/net.h"
 #include <algorithm>
 
@@ -256,6 +257,19 @@ static std::vector<absreq> catalogue()
 	NEW("GET","/sync","/v128",0); H(L,"X-V",std::string(130,'v'));            // value longer than 127: 4-byte length in FastCGI
 	NEW("GET","/sync","/q2","a=1&b=2&c=3&d=4&e=5&f=6");
 	NEW("GET","/async","/ck2",0); H(L,"Cookie","a=\"q;uoted\"; b=2");
+	{
+		// header names whose CGI variables fall into the LAST slot of the 64- and the 128-entry table of string_map
+		// (open addressing, linear probing): all but the first are stored by wrapping around to slot 0, 1, ...
+		NEW("GET","/sync","/wrap","w=1");
+		int found=0;
+		for(char a='A';a<='Z' && found<4;a++) for(char b='A';b<='Z' && found<4;b++) {
+			std::string env=std::string("HTTP_X_W_")+a+b;
+			if(cppcms::impl::string_map::entry::calc_hash(env.c_str())%128==127) {
+				std::string n=std::string("X-W-")+a+b;
+				H(L,n.c_str(),std::string("w")+a+b); found++;
+			}
+		}
+	}
 	#undef NEW
 	#undef L
 	return c;
